@@ -644,4 +644,63 @@ theorem runF_eq (a b : List Obj) (hra : Ranked a) (hrb : Ranked b) (f g : Nat) (
 theorem ranked_of_WF {A : List Ref} (hw : WF A a b) : Ranked a ∧ Ranked b :=
   ⟨fun o ho x hx => (hw.ares o ho x hx).2, fun o ho x hx => (hw.bres o ho x hx).2⟩
 
+/-! ## the views of the specification side -/
+
+theorem content_fuel (objs : List Obj) (hr : Ranked objs) : ∀ (f g : Nat) (r : Ref), rk r.1 < f → rk r.1 < g →
+    content f objs r = content g objs r
+  | 0, _, _, hf, _ => by omega
+  | _ + 1, 0, _, _, hg => by omega
+  | f + 1, g + 1, r, hf, hg => by
+    unfold content
+    cases ho : objs.find? (fun o => o.id == r) with
+    | none => rfl
+    | some o =>
+      have hom := find_id objs r o ho
+      have hk : o.kind = r.1 := by rw [← hom.2]; rfl
+      cases hkk : r.1 <;> simp only
+      all_goals
+        refine congrArg _ (congrArg _ (List.map_congr_left ?_))
+        intro s hs
+        have hs' := (List.mem_filter.1 hs).1
+        refine congrArg (fun t => s.head ++ "(" ++ "; ".intercalate (sortS t) ++ ")") (List.map_congr_left ?_)
+        intro x hx
+        cases hxr : x.ref with
+        | none => rfl
+        | some y =>
+          have := hr o hom.1 y (ref_mem_refs o s x y hs' hx hxr)
+          rw [hk] at this
+          simp only
+          rw [content_fuel objs hr f g y (by omega) (by omega)]
+
+theorem reach_fuel (objs : List Obj) (hr : Ranked objs) : ∀ (f g : Nat) (acc : List Ref) (r : Ref), rk r.1 < f → rk r.1 < g →
+    reach f objs acc r = reach g objs acc r
+  | 0, _, _, _, hf, _ => by omega
+  | _ + 1, 0, _, _, _, hg => by omega
+  | f + 1, g + 1, acc, r, hf, hg => by
+    unfold reach
+    split
+    · rfl
+    · cases ho : objs.find? (fun o => o.id == r) with
+      | none => rfl
+      | some o =>
+        simp only
+        have hom := find_id objs r o ho
+        have hk : o.kind = r.1 := by rw [← hom.2]; rfl
+        apply foldl_ext_mem
+        intro acc x hx
+        have := hr o hom.1 x hx
+        rw [hk] at this
+        exact reach_fuel objs hr f g acc x (by omega) (by omega)
+
+/-- the view with an explicit bound -/
+def viewF (f : Nat) (objs : List Obj) : List String :=
+  sortS ((objs.filter (·.anchor)).map fun o => o.kind.word ++ " " ++ o.name ++ ": " ++ content f objs o.id)
+
+theorem viewF_eq (objs : List Obj) (hr : Ranked objs) (f g : Nat) (hf : 3 ≤ f) (hg : 3 ≤ g) : viewF f objs = viewF g objs := by
+  unfold viewF
+  refine congrArg _ (List.map_congr_left ?_)
+  intro o _
+  have := rk_le_two o.id.1
+  rw [content_fuel objs hr f g o.id (by omega) (by omega)]
+
 end NA.Vpn.G
